@@ -21,7 +21,7 @@ theorem roundEvents_ce (s : Setup) (st : State) (params : String) (uid prio : Na
   have hact : actionEvents s (roundCtx st) "create_event" params none =
       some ([Event.actionFinished "create_event" true, .other ty ps], ceObs ty ps) := by
     unfold actionEvents
-    simp only [beq_self_eq_true, if_true, hce, ceObs]
+    simp only [beq_self_eq_true, if_true, createEventAction_eq, hce, ceObs]
     by_cases h : ty = "StartUtteranceBotAction"
     · subst h; simp
     · simp only [h, if_false]
